@@ -97,8 +97,11 @@ Record mpend := mkMpend { mp_g : N; mp_req : req; mp_isio : bool; mp_other : N; 
                           mp_mask : mask; mp_owner : N * N; mp_seq : N }.
 Record ghostc := mkGhost { gh_h : N; gh_or : N; gh_cr : N; gh_ow : N; gh_cw : N }.
 Record lastrec := mkLast { lr_owner : ownerref; lr_req : req; lr_reply : opres; lr_hash : N }.
-Record mon := mkMon { mn_dump : dump; mn_ghost : list ghostc; mn_pend : list mpend; mn_last : list lastrec }.
-Definition mon_init : mon := mkMon (empty_dump 0) [] [] [].
+(* [mn_trig]: the (client, lock-owner, file handle) triples for which the
+   shared-lock-owner trigger has happened so far in this history (see trig_of) *)
+Record mon := mkMon { mn_dump : dump; mn_ghost : list ghostc; mn_pend : list mpend; mn_last : list lastrec;
+                      mn_trig : list (N * N * N) }.
+Definition mon_init : mon := mkMon (empty_dump 0) [] [] [] [].
 
 Definition b2n (b : bool) : N := if b then 1 else 0.
 
@@ -209,29 +212,73 @@ Definition not_expired (d : dump) : bool :=
 (* ---- C20: lock tables ------------------------------------------------------ *)
 Definition ls_of (l : dlock) : LS.lock :=
   LS.mkLock (dl_start l) (dl_end l) (key2 (dl_client l) (dl_key l)) (if dl_excl l then LS.Exclusive else LS.Shared).
-(* one lock-owner with lock-owner files under two open-owner files of the same
-   file: the lock table identifies locks by lock-owner only *)
-Definition shared_lock_owner (d : dump) : bool :=
-  existsb (fun a => existsb (fun b => negb (lf_other a =? lf_other b)
-                                       && pair_eqb (lf_client a, lf_lokey a) (lf_client b, lf_lokey b)
-                                       && opt_eqb N.eqb (d_handle_of_lofs d a) (d_handle_of_lofs d b)) (d_lofs d)) (d_lofs d).
+(* The trigger of the known finding "shared lock-owner": one lock-owner of one
+   client holds lock state on one file through two (or more) open-owner files.
+   The lock-owner files then share one owner in the file's lock table while
+   lockCount is kept per lock-owner file.  [trig_of d]: the (client,
+   lock-owner, file handle) triples for which this is the case in dump [d]. *)
+Definition trig := (N * N * N)%type.
+Definition trig_eqb (a b : trig) : bool :=
+  (fst (fst a) =? fst (fst b)) && (snd (fst a) =? snd (fst b)) && (snd a =? snd b).
+Definition trig_of (d : dump) : list trig :=
+  flat_map (fun a =>
+    match d_handle_of_lofs d a with
+    | Some h =>
+      if existsb (fun b => negb (lf_other a =? lf_other b)
+                           && pair_eqb (lf_client a, lf_lokey a) (lf_client b, lf_lokey b)
+                           && opt_eqb N.eqb (d_handle_of_lofs d b) (Some h)) (d_lofs d)
+      then [(lf_client a, lf_lokey a, h)] else []
+    | None => []
+    end) (d_lofs d).
+(* has the trigger happened (so far in this history) for this lock-owner on this file? *)
+Definition triggered (T : list trig) (cl key h : N) : bool := existsb (trig_eqb (cl, key, h)) T.
+Definition trig_on_handle (T : list trig) (h : N) : bool := existsb (fun t => snd t =? h) T.
+Definition trig_add (T : list trig) (new : list trig) : list trig :=
+  fold_left (fun acc t => if existsb (trig_eqb t) acc then acc else t :: acc) new T.
+Definition shared_kind : string := "C20:shared-lock-owner"%string.
+(* A C20 symptom on a (lock-owner, file) for which the trigger has happened is
+   reported under the one kind of the known finding; without the trigger it
+   keeps its specific kind, so that a different defect still alarms. *)
+Definition scoped (hit : bool) (k : string) : string :=
+  if String.eqb k "" then ""%string
+  else if hit && String.prefix "C20:" k then shared_kind else k.
+Fixpoint first_of {A} (f : A -> string) (l : list A) : string :=
+  match l with
+  | [] => ""%string
+  | x :: tl => let e := f x in if String.eqb e "" then first_of f tl else e
+  end.
 
-Definition locks_ok (d : dump) : string :=
-  if negb (forallb (fun p => forallb (fun l => dl_cur l && match d_los_by d (dl_client l, dl_key l) with Some _ => true | None => false end) (dp_locks p)) (d_pool d))
-  then "C20:lock-owner-object"
-  else if negb (forallb (fun l => match d_handle_of_lofs d l with
-                                  | Some h => (lf_count l =? Z.of_N (count_by (fun k => pair_eqb (dl_client k, dl_key k) (lf_client l, lf_lokey l)) (d_locks d h)))%Z
-                                  | None => false end) (d_lofs d))
-  then (if shared_lock_owner d then "C20:shared-lock-owner-lockcount" else "C20:lockcount-mismatch")
-  else if negb (forallb (fun p => forallb (fun k => existsb (fun l => pair_eqb (lf_client l, lf_lokey l) (dl_client k, dl_key k)
-                                                                      && match d_handle_of_lofs d l with Some h => h =? dp_handle p | None => false end) (d_lofs d))
-                                          (dp_locks p)) (d_pool d))
-  then "C20:lock-without-lock-owner-file"
-  else if negb (forallb (fun p => LSS.wf (map ls_of (dp_locks p))) (d_pool d)) then "C20:table-not-wf"
-  else if negb (forallb (fun p => LSS.compatible (map ls_of (dp_locks p))) (d_pool d)) then "C20:exclusion"
-  else "".
+Definition locks_ok (T : list trig) (d : dump) : string :=
+  let owner_object : string :=
+    first_of (fun p => first_of (fun l =>
+        scoped (triggered T (dl_client l) (dl_key l) (dp_handle p))
+               (if dl_cur l && match d_los_by d (dl_client l, dl_key l) with Some _ => true | None => false end
+                then "" else "C20:lock-owner-object")) (dp_locks p)) (d_pool d) in
+  let lockcount : string :=
+    first_of (fun l =>
+        match d_handle_of_lofs d l with
+        | Some h =>
+          scoped (triggered T (lf_client l) (lf_lokey l) h)
+                 (if (lf_count l =? Z.of_N (count_by (fun k => pair_eqb (dl_client k, dl_key k) (lf_client l, lf_lokey l)) (d_locks d h)))%Z
+                  then "" else "C20:lockcount-mismatch")
+        | None => "C20:lockcount-mismatch"%string
+        end) (d_lofs d) in
+  let orphan : string :=
+    first_of (fun p => first_of (fun k =>
+        scoped (triggered T (dl_client k) (dl_key k) (dp_handle p))
+               (if existsb (fun l => pair_eqb (lf_client l, lf_lokey l) (dl_client k, dl_key k)
+                                     && match d_handle_of_lofs d l with Some h => h =? dp_handle p | None => false end) (d_lofs d)
+                then "" else "C20:lock-without-lock-owner-file")) (dp_locks p)) (d_pool d) in
+  let shape : string :=
+    first_of (fun p => scoped (trig_on_handle T (dp_handle p))
+        (if negb (LSS.wf (map ls_of (dp_locks p))) then "C20:table-not-wf"
+         else if negb (LSS.compatible (map ls_of (dp_locks p))) then "C20:exclusion" else "")) (d_pool d) in
+  if negb (String.eqb owner_object "") then owner_object
+  else if negb (String.eqb lockcount "") then lockcount
+  else if negb (String.eqb orphan "") then orphan
+  else shape.
 
-Definition state_ok (d : dump) (g : list ghostc) (pend : list mpend) : string :=
+Definition state_ok (T : list trig) (d : dump) (g : list ghostc) (pend : list mpend) : string :=
   if negb (ghost_le g) then "C18:close-without-open"
   else if negb (share_count_ok d pend) then "C18:share-count"
   else if negb (entitled_ok d g) then "C18:closed-while-entitled"
@@ -242,7 +289,7 @@ Definition state_ok (d : dump) (g : list ghostc) (pend : list mpend) : string :=
   else let i := integrity_ok d in
        if negb (String.eqb i "") then i
        else if negb (not_expired d) then "C18:expired-state-retained"
-       else locks_ok d.
+       else locks_ok T d.
 
 (* ---- step predicates -------------------------------------------------------- *)
 Definition quiet (D : dump) (t : Z) : bool := (t <=? d_now D)%Z.   (* enter(t) cannot expire anything *)
@@ -446,8 +493,7 @@ Definition empty_range_granted (r : req) (rp : reply) : bool :=
   | _, _ => false
   end.
 
-Definition p_lock (D D' : dump) (t : Z) (fh : curfh) (r : req) (rp : reply) : string :=
-  if empty_range_granted r rp then "C20:empty-range-accepted" else
+Definition p_lock_raw (D D' : dump) (t : Z) (fh : curfh) (r : req) (rp : reply) : string :=
   if negb (quiet D t) then "" else
   let fresh := match owner_info D r with Some oi => match replay_candidate oi with Some _ => false | None => true end | None => true end in
   match r, fh_handle fh with
@@ -534,6 +580,59 @@ Definition p_lock (D D' : dump) (t : Z) (fh : curfh) (r : req) (rp : reply) : st
   | _, _ => ""
   end.
 
+(* The (lock-owner, file) an operation acts on: has the shared-lock-owner
+   trigger happened for it? *)
+Definition op_triggered (T : list trig) (D : dump) (fh : curfh) (r : req) : bool :=
+  match r with
+  | RLockT _ _ _ cl ow =>
+      match fh_handle fh with Some h => triggered T cl ow h | None => false end
+  | RLockNew _ _ _ _ _ _ lclient lowner =>
+      match fh_handle fh with Some h => triggered T lclient lowner h | None => false end
+  | RLockOld _ _ _ lsid _ | RLockU _ _ lsid _ _ =>
+      match reg_other lsid with
+      | Some other => match d_lofs_by D other with
+                      | Some l => match d_handle_of_lofs D l with
+                                  | Some h => triggered T (lf_client l) (lf_lokey l) h | None => false end
+                      | None => false end
+      | None => false end
+  | RClose sid _ =>
+      match reg_other sid with
+      | Some other => match d_oofs_by D other with
+                      | Some o => existsb (fun l => (lf_oofs l =? other) && triggered T (lf_client l) (lf_lokey l) (of_handle o)) (d_lofs D)
+                      | None => false end
+      | None => false end
+  | RReleaseLockOwner cl ow => existsb (fun t => (fst (fst t) =? cl) && (snd (fst t) =? ow)) T
+  | _ => false
+  end.
+
+Definition p_lock (T : list trig) (D D' : dump) (t : Z) (fh : curfh) (r : req) (rp : reply) : string :=
+  if empty_range_granted r rp then "C20:empty-range-accepted"
+  else scoped (op_triggered T D fh r) (p_lock_raw D D' t fh r rp).
+
+(* A panic belongs to the known finding if the request acts on a
+   (lock-owner, file) for which the trigger has happened, if the request itself
+   makes a lock-owner lock through a second open-owner file, if enter() may
+   expire an idle client for which it has happened, or if
+   SETCLIENTID_CONFIRM discards the state of such a client. *)
+Definition idle_trig_client (T : list trig) (D : dump) : bool :=
+  existsb (fun t => match d_conf_by D (fst (fst t)) with Some c => cf_hold c =? 0 | None => false end) T.
+Definition panic_shared (T : list trig) (D : dump) (e : event) (sharing_now : bool) : bool :=
+  match e with
+  | EReq _ t fh r =>
+    sharing_now || op_triggered T D fh r
+    || (negb (quiet D t) && idle_trig_client T D)
+    || match r with
+       | RSetClientIdConfirm short _ =>
+         match d_conf_by D short with
+         | Some c => existsb (fun t => match d_conf_by D (fst (fst t)) with
+                                       | Some c' => (cf_long c' =? cf_long c) && negb (cf_short c' =? short)
+                                       | None => false end) T
+         | None => false end
+       | _ => false
+       end
+  | EOpenRet _ t _ | EIoRet _ t _ => negb (quiet D t) && idle_trig_client T D
+  end.
+
 (* C18 open_stays_resolvable on one request *)
 Definition p_resolve (D D' : dump) (fh : curfh) (rp : reply) (calls : list leafcall) : string :=
   match rp with
@@ -577,21 +676,27 @@ Definition mon_step (m : mon) (ob : obs) : mon * string :=
   let rp := ob_reply ob in
   let calls := ob_calls ob in
   (* the request itself makes a lock-owner share a file through a second open-owner file *)
-  let sharing_now :=
+  let now_trig : list trig :=
     match ob_ev ob with
     | EReq _ _ fh (RLockNew _ _ _ _ _ _ lclient lowner) =>
-      existsb (fun l => pair_eqb (lf_client l, lf_lokey l) (lclient, lowner)
-                        && opt_eqb N.eqb (d_handle_of_lofs D l) (fh_handle fh)) (d_lofs D)
-    | _ => false
+      match fh_handle fh with
+      | Some h => if existsb (fun l => pair_eqb (lf_client l, lf_lokey l) (lclient, lowner)
+                                       && opt_eqb N.eqb (d_handle_of_lofs D l) (Some h)) (d_lofs D)
+                  then [(lclient, lowner, h)] else []
+      | None => []
+      end
+    | _ => []
     end in
+  let T := trig_add (mn_trig m) (now_trig ++ trig_of D')%list in
   let hard : string := match rp with
-                       | RpPanic => if shared_lock_owner D || sharing_now then "C20:shared-lock-owner-panic" else "C18:panic"
+                       | RpPanic => if panic_shared T D (ob_ev ob) (match now_trig with [] => false | _ => true end)
+                                    then shared_kind else "C18:panic"
                        | RpHang => "C19:hang" | _ => "" end%string in
   let '(err, pend, last) :=
     match ob_ev ob with
     | EReq g t fh r =>
       let e := first_err [p_resolve D D' fh rp calls; p_owner_req m D' t r rp (ob_hash ob) calls;
-                          p_scope D t fh r rp; p_lock D D' t fh r rp] in
+                          p_scope D t fh r rp; p_lock T D D' t fh r rp] in
       let pend :=
         match rp, r with
         | RpParkedOpen, ROpen a =>
@@ -637,7 +742,7 @@ Definition mon_step (m : mon) (ob : obs) : mon * string :=
       end
     end in
   let ghost := ghost_apply (mn_ghost m) calls in
-  (mkMon D' ghost pend last, first_err [hard; err; state_ok D' ghost pend]).
+  (mkMon D' ghost pend last T, first_err [hard; err; state_ok T D' ghost pend]).
 
 Fixpoint mon_run (m : mon) (tr : list obs) : string :=
   match tr with
